@@ -674,6 +674,9 @@ class Evaluator:
             root = storage_root(cur)
             if root is not None:
                 self.event("inplace", how="augassign", root=root, target=ast.unparse(st.target), node=st, value=cur)
+        if isinstance(st.target, ast.Subscript):
+            self.event("augstore", base=self.eval(st.target.value, fr), index=self.eval_index(st.target.slice, fr), op=type(st.op).__name__,
+                       rhs=rhs, node=st, loops=len(getattr(self, "loop_stack", [])))
         self.assign(st.target, new, fr, aug=True)
 
     def st_If(self, st, fr):
@@ -811,30 +814,71 @@ class Evaluator:
         return self.param_loop(st, it, fr)
 
     def param_loop(self, st, it, fr):
+        """One parametric iteration.  Loop-carried arrays are read through `carried(x, id)`
+        wrappers; when every store into an array addresses the slot of the loop variable,
+        reads of other cells of that slot are resolved to the pre-loop content."""
         assigned = assigned_names(st.body) - target_names(st.target)
         loopid = next(self.sym_counter)
-        jsym = None
         elem = self.loop_element(it, loopid)
         self.assign(st.target, elem, fr)
-        pre = {n: fr.vars.get(n) for n in assigned}
+        pre = {}
+        for n in assigned:
+            try:
+                old = fr.lookup(n)
+            except KeyError:
+                continue
+            pre[n] = old
+            if isinstance(old, V) and not isinstance(old, (Const, Tup)):
+                self.set_var(fr, n, App("carried", (old, Const(loopid))))
         self.event("for", node=st, iter=it, elem=elem, loopid=loopid)
         self.loop_stack = getattr(self, "loop_stack", [])
         self.loop_stack.append((loopid, elem, it))
+        nev = len(self.events)
         try:
             sig = self.exec_block(st.body, fr)
         finally:
             self.loop_stack.pop()
-        for n in assigned:
-            new = fr.vars.get(n)
-            old = pre.get(n)
-            if isinstance(new, V) and isinstance(old, V) and new == old:
+        # slot discipline per carried array
+        jsyms = [a for a in ([elem] + (list(elem.items) if isinstance(elem, Tup) else [])) if isinstance(a, Sym) and "loopvar" in a.tags]
+        resolv = {}
+        for n, old in pre.items():
+            if not isinstance(old, V):
                 continue
+            car = App("carried", (old, Const(loopid)))
+            idxs = [e["index"] for e in self.events[nev:] if e["kind"] == "store" and _chain_base(e["base"]) == car]
+            slot = None
+            if idxs and jsyms:
+                for pos_ in range(-4, 4):
+                    if all(isinstance(i, Tup) and -len(i.items) <= pos_ < len(i.items) and i.items[pos_] in jsyms and
+                           (pos_ >= 0 and not any(x == Const(Ellipsis) for x in i.items[:pos_]) or pos_ < 0 and not any(x == Const(Ellipsis) for x in i.items[pos_:]))
+                           for i in idxs):
+                        slot = pos_
+                        break
+                if slot is None and all(i in jsyms for i in idxs):
+                    slot = "whole"
+            resolv[car] = (old, slot)
+        for n in assigned:
+            try:
+                new = fr.lookup(n)
+            except KeyError:
+                continue
+            old = pre.get(n)
             if isinstance(new, V):
-                fr.vars[n] = mk_app("after_loop", [new, Const(loopid)]) if not isinstance(new, Top) else new
+                new = _resolve_carried(self, new, resolv, jsyms)
+                if isinstance(old, V) and new == App("carried", (old, Const(loopid))):
+                    self.set_var(fr, n, old)
+                    continue
+                self.set_var(fr, n, mk_app("after_loop", [new, Const(loopid)]) if not isinstance(new, Top) else new)
         if sig is not None and sig[0] == "return":
             if self.decide(App("loop_returns", (Const(st.lineno),)), st):
                 return sig
         return None
+
+    def set_var(self, fr, n, v):
+        f = fr
+        while f is not None and n not in f.vars:
+            f = f.parent
+        (f or fr).vars[n] = v
 
     def loop_element(self, it, loopid):
         """Symbolic element of an iterable of unknown length."""
@@ -945,7 +989,8 @@ class Evaluator:
             return
         if isinstance(base, V):
             root = storage_root(base)
-            self.event("store", root=root, base=base, index=idx, value=v, node=t, target=ast.unparse(t))
+            self.event("store", root=root, base=base, index=idx, value=v, node=t, target=ast.unparse(t),
+                       loops=len(getattr(self, "loop_stack", [])))
             if root is not None:
                 self.event("inplace", how="subscript-store", root=root, target=ast.unparse(t), node=t, value=base)
             new = mk_app("store", [base, idx, v if isinstance(v, V) else Sym(key_of(v))])
@@ -1361,6 +1406,31 @@ def storage_root(v):
             return None
         return None
     return None
+
+
+def _chain_base(v):
+    while isinstance(v, App) and v.fn == "store":
+        v = v.args[0]
+    return v
+
+
+def _resolve_carried(ev, v, resolv, jsyms):
+    """Rewrite reads getitem(carried(x), idx) to getitem(x, idx) when idx addresses this iteration's own slot."""
+    from .terms import subst, atoms_of
+
+    mapping = {}
+    for a in atoms_of(v):
+        if isinstance(a, App) and a.fn == "getitem" and a.args[0] in resolv:
+            old, slot = resolv[a.args[0]]
+            idx = a.args[1]
+            ok = False
+            if slot == "whole":
+                ok = idx in jsyms
+            elif slot is not None and isinstance(idx, Tup) and -len(idx.items) <= slot < len(idx.items):
+                ok = idx.items[slot] in jsyms
+            if ok:
+                mapping[a] = ev.lib.getitem(ev, old, idx)
+    return subst(v, mapping) if mapping else v
 
 
 def assigned_names(body):
